@@ -59,6 +59,10 @@ P = {
   "sklearn's tree is a recorder returning symbolic neighbour indices and ascending non-negative distances. For nearest-neighbour remapping z3 shows that the source tree is built from the element kind the data live on (also on grids where n_node = n_face, and after an earlier remap of another kind with the same options), in the requested coordinate type; that the query points are the destination elements of remap_to; that dest[..., j] = src[..., nearest(j)] for every leading index; output dims and grid. For inverse-distance weighting (real code, symbolic distances): the result lies between min and max of the k neighbours, constants are reproduced, and for k = 2 the result is the 1/(d^p+1e-6)-weighted normalised sum with positive weights non-increasing in distance (z3 nlsat).",
   "Outside: that sklearn's query returns the true nearest sources (as C11). Weight monotonicity in closed form is decided for k = 2, powers 1..3; for k = 3 (power 1) only convexity and constants (nlsat unknown beyond). Candidates are judged by a replay on real grids with a tie-tolerant brute-force great-circle search, and for IDW by reading the weights back with indicator fields. Bounds: source grids 'mixed' (3 faces/6 nodes/8 edges) and 'tetra' (n_face = n_node), destination 2 faces/5 nodes/6 edges, leading dims up to (2,2).",
   "DESIGN.md §2 C12"),
+ "C08": (True,
+  "Histories are decided pairwise on a cloned Grid with symbolic node coordinates: for every ordered pair (op1, op2) drawn from 29 public read-only operations - op1 applied to the same grid or to another grid of the process - the solver shows that op2's result (structure and every value, as terms over the coordinates) equals op2 on a freshly built grid, that exports contain every fresh variable with the same value plus only derived variables holding the grid's own values (topology attributes naming only what the export contains), and that no module-level constant of uxarray.conventions differs from its import-time snapshot. Longer histories with symbolic arguments over the caches (plot conversions, search trees, face areas) are decided by the C15/C11/C05/C06 cache obligations.",
+  "Bounds: histories of length 2 (op1; op2) - sound for longer histories only together with the cache obligations of C15/C11/C05, not an induction proof; 3 faces (4+3+3 corners) over 6 nodes away from the antimeridian; Grid.dims/sizes/coordinates/connectivity (which by design enumerate what is materialised) are observed only in their history-independent part. Outside: chunk() (dask), bounds, get_dual, numba/dask caches, JIT on/off (exercised only in replays). Stubs as C15/C11/C05; trig and products uninterpreted (values compared as terms).",
+  "DESIGN.md §2 C08"),
 }
 NA = {
  "C10": "Quantifies over arbitrary compositions of xarray's own operations; whether the grid survives is decided inside xarray/numpy C-level dispatch which symbolic values cannot cross, and there is no bounded uxarray kernel to encode (DESIGN.md §4).",
